@@ -118,6 +118,7 @@ type vconn struct {
 	tailDone   chan struct{} // closed by writer 1 once it has issued its further frames
 	midOnce    sync.Once
 	probePool  bool // look at the byte-slice pool when this callback ends
+	dripped    bool // the "drip" answer has been written
 }
 
 type vhandler struct {
@@ -142,9 +143,10 @@ type vhandler struct {
 	inCb            [512]int // per loop index, deliberately unsynchronised
 	loopTid         int32
 	dupMu           sync.Mutex
-	userDups        []int // descriptors obtained through Conn.Dup: ours to close
-	slowTick        int32 // 1 while a slow OnTick is running
-	parkConn        int32 // conn id whose first OnTraffic keeps its loop busy until parkRelease is closed (0: none)
+	userDups        []int    // descriptors obtained through Conn.Dup: ours to close
+	slowTick        int32    // 1 while a slow OnTick is running
+	fdOf            sync.Map // conn id -> descriptor it was opened with
+	parkConn        int32    // conn id whose first OnTraffic keeps its loop busy until parkRelease is closed (0: none)
 	parkReached     chan struct{}
 	parkRelease     chan struct{}
 }
@@ -239,6 +241,7 @@ func (h *vhandler) OnOpen(c Conn) (out []byte, action Action) {
 	h.conns.Store(c, vc)
 	h.rec.emit("Open", "c", sp.id, "h", hd, "g", g, "raddr", raddr, "laddr", laddr, "fd", c.Fd(), "loop", c.(*conn).loop.idx)
 	atomic.AddInt32(&h.opened, 1)
+	h.fdOf.Store(sp.id, c.Fd())
 	if vc.rng.Intn(4) == 0 {
 		// a descriptor handed to the user: the framework must never close it
 		if fd, err := c.Dup(); err == nil {
@@ -895,8 +898,12 @@ func (h *vhandler) writeOps(vc *vconn, c Conn) {
 	if sp.reply == "none" {
 		return
 	}
+	direct := false // only the calls that go straight to the socket (Write / Writev)
 	write := func(f []byte, w int) {
 		op := []string{"Write", "Writev", "ReadFromFlush", "Write"}[vc.rng.Intn(4)]
+		if direct && op == "ReadFromFlush" {
+			op = "Write"
+		}
 		h.rec.emit("WIssue", "c", sp.id, "op", op, "w", w, "k", vc.kOut, "len", len(f))
 		vc.kOut++
 		vc.outBytes += len(f)
@@ -924,6 +931,21 @@ func (h *vhandler) writeOps(vc *vconn, c Conn) {
 	// the final frame is only written once every asynchronous write of this connection has been carried out
 	// (their callbacks run on this goroutine), so that it is the last thing the peer receives
 	done := vc.consumed >= sp.total && atomic.LoadInt32(&vc.asyncLeft) <= 0 && atomic.LoadInt32(&vc.asyncCbs) == 0
+	if sp.reply == "drip" && !vc.dripped && !vc.finSent {
+		// many small frames to a peer that is not reading: each goes straight to the socket and is taken whole until
+		// the socket is full; the first one that is not taken at all (EAGAIN, nothing written, nothing buffered yet)
+		// is the one after which the write interest has to be registered
+		vc.dripped = true
+		direct = true
+		frames := 120
+		if sp.network == "unix" {
+			frames = 500 // (a Unix-domain socket takes a couple of hundred KB before it is full)
+		}
+		for i := 0; i < frames; i++ {
+			write(mkFrame(sp.id, 0, vc.kOut, 2500), 0)
+		}
+		direct = false
+	}
 	if !vc.finSent {
 		nf := vc.rng.Intn(3)
 		if sp.reply == "big" {
